@@ -17,7 +17,8 @@ import (
 // C17 - ReadHtml mirrors the HTML5 parse tree without namespaces.
 
 type c17Case struct {
-	Text string `json:"text"`
+	Text   string `json:"text"`
+	Before string `json:"before,omitempty"` // a document given to ReadHtml just before (its outcome is not judged here)
 }
 
 var c17Tree = reg("C17", "c17-tree", checkC17)
@@ -159,6 +160,9 @@ func checkC17(c *c17Case) error {
 	var ev []xmodel.Event
 	htmlEvents(dom, &ev)
 	model := xmodel.Build(ev)
+	if c.Before != "" {
+		safeReadHTML(c.Before)
+	}
 	cur, err := safeReadHTML(c.Text)
 	if pe, ok := err.(*panicError); ok {
 		return fmt.Errorf("ReadHtml(%q) panicked: %v", c.Text, pe.v)
@@ -218,6 +222,10 @@ func TestC17(t *testing.T) {
 	runWitnesses(t, "C17")
 	runProp(t, "tree", 100000, 1000000, func(t *rapid.T) {
 		c := &c17Case{Text: genSoup(t)}
+		if rapid.IntRange(0, 3).Draw(t, "callBefore") == 0 {
+			c.Before = []string{"no doctype <p>x", "", "<!DOCTYPE html><table><tr><td>x<table>", "<!DOCTYPE html><svg><foreignObject><p>", "\xff\xfe", "<!DOCTYPE html><template><td>"}[rapid.IntRange(0, 5).Draw(t, "before")]
+			st.Class("after-another-call")
+		}
 		st.Eval(1)
 		if dom, err := html.Parse(strings.NewReader(c.Text)); err == nil {
 			n, feats := c17Features(dom)
